@@ -59,6 +59,8 @@ type target struct {
 	Ghosts []string // "(name : Type)"
 	// Abstract: parameters/fields that have no translated representation (dropped from the signature)
 	Abstract []string
+	// StmtEffects: a statement (as printed) whose whole meaning is a list of ghost assignments
+	StmtEffects map[string][]string
 	// ExtraParams: further parameters of the translated function (used by Rewrites)
 	ExtraParams []string
 	// Ignore: statements (as printed) that have no counterpart in the sequential translation:
@@ -145,6 +147,22 @@ var targets = []target{
 			"processFn":          {Lean: "(P_Fn %2 %3 %4)", Type: "Kit.GoSem.Err", Effects: []string{"outLog := outLog ++ [(%2, %3, %4)]"}},
 			"out.CloseWithError": {Lean: "(none : Kit.GoSem.Err)", Type: "Kit.GoSem.Err", Effects: []string{"closedWith := closedWith ++ [%1]"}},
 			"out.Close":          {Lean: "(none : Kit.GoSem.Err)", Type: "Kit.GoSem.Err", Effects: []string{"closedWith := closedWith ++ [(none : Kit.GoSem.Err)]"}},
+		}},
+	{Group: "C01", Dir: "schemes/enc/v1", Func: "readHeader",
+		Types:       map[string]string{"*[]byte": "List UInt8"},
+		Abstract:    []string{"in"},
+		Ignore:      []string{"defer func() {…"},
+		ExtraParams: []string{"{σ : Type}", "(R_Read : σ → Int → Int × Kit.GoSem.Err)", "(R_Data : σ → Int → List UInt8)", "(R_Step : σ → Int → σ)", "(buf0 : List UInt8)"},
+		// pushback: the bytes read past the header that are put back in front of the stream
+		Ghosts: []string{"(src : σ)", "(pushback : List UInt8)"},
+		Rewrites: map[string][2]string{
+			"BufPool.Get().(*[]byte)": {"buf0", "List UInt8"},
+			"errors.Is(err, io.EOF)":  {"(err == (some \"io.EOF\" : Kit.GoSem.Err))", "Bool"}},
+		StmtEffects: map[string][]string{"*in = io.MultiReader(bytes.NewReader(extraBytes), *in)": {"pushback := extraBytes"}},
+		Externs: map[string]extern{
+			"(*in).Read": {Lean: "(R_Read src (Kit.GoSem.lenI %1))", Type: "Int × Kit.GoSem.Err",
+				Effects: []string{"buf := Kit.GoSem.writeAt buf n (65536 : Int) (R_Data src (Kit.GoSem.lenI %1))", "src := R_Step src (Kit.GoSem.lenI %1)"}},
+			"bytes.Clone": {Lean: "%1", Type: "List UInt8"},
 		}},
 	{Group: "C03", Dir: "crypto/padding", Func: "UnpadPKCS7"},
 	{Group: "C07", Dir: "time", Func: "ParseISO8601Duration", Externs: map[string]extern{
@@ -420,6 +438,15 @@ func (c *fnCtx) expr(e ast.Expr) exprOut {
 		return exprOut{s: rw[0], ty: lty(rw[1])}
 	}
 	tv := c.info.Types[e]
+	if tv.Value != nil && tv.Type != nil && tv.Value.Kind() == constant.String {
+		if b, ok := tv.Type.Underlying().(*types.Basic); ok && b.Info()&types.IsString != 0 {
+			var bs []string
+			for _, ch := range []byte(constant.StringVal(tv.Value)) {
+				bs = append(bs, fmt.Sprintf("%d", ch))
+			}
+			return exprOut{s: "([" + strings.Join(bs, ", ") + "] : List UInt8)", ty: tBytes}
+		}
+	}
 	if tv.Value != nil && tv.Type != nil {
 		if b, ok := tv.Type.Underlying().(*types.Basic); ok && b.Info()&(types.IsInteger|types.IsBoolean) != 0 {
 			ty := c.leanType(tv.Type, e)
@@ -657,6 +684,16 @@ func (c *fnCtx) call(v *ast.CallExpr) exprOut {
 	}
 	if id, ok := v.Fun.(*ast.Ident); ok {
 		switch id.Name {
+		case "make":
+			if _, isBuiltin := c.info.Uses[id].(*types.Builtin); isBuiltin && len(v.Args) == 2 {
+				if c.leanType(c.info.Types[v.Args[0]].Type, v) == tBytes {
+					n := c.expr(v.Args[1])
+					p := append([]pre{}, n.pre...)
+					p = append(p, pre{guard: fmt.Sprintf("(decide (0 ≤ %s))", n.s), msg: "makeslice: len out of range: " + printed(c.fset, v)})
+					return exprOut{s: fmt.Sprintf("(List.replicate %s.toNat (0 : UInt8))", n.s), ty: tBytes, pre: p}
+				}
+			}
+			c.bad(v, "make")
 		case "len":
 			if _, isBuiltin := c.info.Uses[id].(*types.Builtin); isBuiltin {
 				x := c.expr(v.Args[0])
@@ -827,6 +864,23 @@ func (c *fnCtx) assigned(n ast.Node, out map[string]lty) {
 			c.noteAssigned(s.X, false, out)
 		case *ast.ExprStmt:
 			c.noteEffects(s.X, out)
+			if call, ok := s.X.(*ast.CallExpr); ok {
+				if id, ok := call.Fun.(*ast.Ident); ok && id.Name == "copy" && len(call.Args) == 2 {
+					c.noteAssigned(call.Args[0], false, out)
+				}
+			}
+		}
+		if st, ok := x.(ast.Stmt); ok {
+			if effs, ok := c.t.StmtEffects[printed(c.fset, st)]; ok {
+				for _, ef := range effs {
+					nm := strings.TrimSpace(strings.SplitN(ef, ":=", 2)[0])
+					for _, g := range c.env {
+						if g.name == nm {
+							out[nm] = g.ty
+						}
+					}
+				}
+			}
 		}
 		return true
 	})
@@ -1070,6 +1124,14 @@ func (c *fnCtx) externValue(ex extern, call *ast.CallExpr) exprOut {
 }
 
 func (c *fnCtx) stmt(s ast.Stmt, k conts) string {
+	if effs, ok := c.t.StmtEffects[printed(c.fset, s)]; ok {
+		body := k.next()
+		for i := len(effs) - 1; i >= 0; i-- {
+			parts := strings.SplitN(effs[i], ":=", 2)
+			body = fmt.Sprintf("let %s := %s\n%s", strings.TrimSpace(parts[0]), strings.TrimSpace(parts[1]), body)
+		}
+		return body
+	}
 	for _, ig := range c.t.Ignore {
 		ps := printed(c.fset, s)
 		if ps == ig || (strings.HasSuffix(ig, "…") && strings.HasPrefix(ps, strings.TrimSuffix(ig, "…"))) {
@@ -1134,6 +1196,19 @@ func (c *fnCtx) stmt(s ast.Stmt, k conts) string {
 	case *ast.AssignStmt:
 		return c.assign(v, k)
 	case *ast.ExprStmt:
+		if call, ok := v.X.(*ast.CallExpr); ok {
+			if id, ok := call.Fun.(*ast.Ident); ok && id.Name == "copy" && len(call.Args) == 2 {
+				if _, isBuiltin := c.info.Uses[id].(*types.Builtin); isBuiltin {
+					// copy(dst, src) into a whole list-typed variable
+					name, ty, _ := c.lhsVar(call.Args[0])
+					src := c.expr(call.Args[1])
+					if ty != tBytes || src.ty != tBytes {
+						c.bad(s, "copy of %s into %s", src.ty, ty)
+					}
+					return c.emitPre(src.pre, fmt.Sprintf("let %s : %s := Kit.GoSem.fill %s %s\n%s", name, ty, name, src.s, k.next()))
+				}
+			}
+		}
 		if ex, call, ok := c.externOf(v.X); ok {
 			val := c.externValue(ex, call)
 			return c.emitPre(val.pre, c.effects(ex, val, k.next()))
